@@ -134,6 +134,10 @@ func streamDrv(c *ctx) {
 			jobs = append(jobs, job{path, 0, []arrival{{8, cl}, {30, "valid"}}, "none", r.U64()})
 		}
 	}
+	// a valid reply that arrives in two separately delivered pieces (10 + 54 bytes, 50 ms apart)
+	for _, path := range []string{"tcp", "udp", "broadcast"} {
+		jobs = append(jobs, job{path, 0, []arrival{{8, "part1"}, {58, "part2"}}, "none", r.U64()})
+	}
 	// a continuous flood of irrelevant datagrams, closer together than the timeout, for three timeouts:
 	// the call must still end one timeout after it was made (no deadline is re-armed by a stray)
 	for _, cl := range []string{"wrong-serial", "short", "long"} {
